@@ -65,6 +65,42 @@ def chunk(expr, args, flags, form):
             "emit('ctx', tostring(ctx), type(x) == 'string' and x or type(x))\n") % (expr, args, json.dumps(names(flags)), body)
 
 
+BODIES = {
+    "direct": "local r = table.pack(f(table.unpack(A, 1, A.n))) ok = true",
+    "pcall": "ok, e = pcall(f, table.unpack(A, 1, A.n))",
+    "coroutine": "local co = coroutine.create(f) ok, e = coroutine.resume(co, table.unpack(A, 1, A.n))",
+    "wrap": "ok, e = pcall(coroutine.wrap(function(...) return f(...) end), table.unpack(A, 1, A.n))",
+    "meta": "local o = setmetatable({}, {__call = f}) ok, e = pcall(o, table.unpack(A, 1, A.n))",
+    "load": "local g = load('local f, A = ... return f(table.unpack(A, 1, A.n))') ok, e = pcall(g, f, A)",
+}
+
+
+def chunk_nested(expr, args, outer, inner_def, form):
+    """f is called inside runtime.callcontext(inner_def, ...) nested inside a context requiring `outer`.
+    Same events as chunk() ('r', 'alive', 'ctx' = the INNER context), plus the flags in force."""
+    return ("local f = %s\nlocal A = table.pack(%s)\nlocal ictx, ix\n"
+            "local octx, ox = runtime.callcontext({flags=%s}, function()\n"
+            " ictx, ix = runtime.callcontext(%s, function()\n  emit('flags', runtime.context().flags)\n  local ok, e\n  %s\n"
+            "  emit('r', ok, type(e) == 'string' and e or type(e))\n  emit('alive', math.type(1))\n  return 'fin'\n end)\n"
+            " emit('outerflags', runtime.context().flags)\n return 'fin'\nend)\n"
+            "emit('ctx', tostring(ictx), type(ix) == 'string' and ix or type(ix))\nemit('octx', tostring(octx))\n") % (
+                expr, args, json.dumps(names(outer)), inner_def, BODIES[form])
+
+
+def chunk_stress(rej_expr, flags, thread, count):
+    """count flag-rejected calls in ONE thread, then compliant calls inside the context and after leaving it."""
+    run = {"main": "burst(%d)" % count, "coroutine": "coroutine.wrap(burst)(%d)" % count,
+           "pcall": "assert(pcall(burst, %d))" % count}[thread]
+    return ("local rej = %s\nlocal n = 0\n"
+            "local function burst(k) for i = 1, k do local ok, e = pcall(rej, 'canary') "
+            "if not ok and type(e) == 'string' and e:find('missing flags: ', 1, true) then n = n + 1 end end end\n"
+            "local ctx, x = runtime.callcontext({flags=%s}, function()\n %s\n emit('rej', n)\n"
+            " emit('after', pcall(string.rep, 'a', 3))\n emit('after2', tostring(12), select('#', 1, 2), ('x'):upper())\n return 'fin'\nend)\n"
+            "emit('ctx', tostring(ctx), type(x) == 'string' and x or type(x))\n"
+            "emit('outside', pcall(string.rep, 'b', 2))\nemit('outside2', tostring(7), #table.pack(1, 2, 3))\n") % (
+                rej_expr, json.dumps(names(flags)), run)
+
+
 def parse_trace(tr):
     """T: field -> list of events, each a list of python values (strings decoded)."""
     evs = []
@@ -241,6 +277,43 @@ def run(tier, seed):
                 combos = [(fm, ti) for fm in FORMS for ti in range(len(TUPLES))]
             for fm, ti in combos:
                 cases.append((d, R, fm, ti, blocked))
+    # nested contexts: f called inside runtime.callcontext(<inner def>) nested in a context requiring iosafe (and more);
+    # the requirement in force inside is outer | inner (| cpusafe/memsafe for limits): flags only grow (C08_gate_monotone_under_nesting)
+    nested = {}   # index in cases -> (outer, inner definition source)
+    INNER_FORMS = ["direct", "pcall", "coroutine", "wrap"]
+    inner_defs = [(fl, "{flags=%s}" % json.dumps(names(fl))) for fl in range(16)] + [(2, "{kill={cpu=10000000}}"), (1, "{kill={memory=100000000}}"), (0, "{}")]
+    for di, d in enumerate(dyn):
+        if quick:
+            outers = [4]
+            h = (di + rot) % 4
+            picks = [inner_defs[2], inner_defs[(1, 8, 3, 9)[h]], inner_defs[16 + h % 3]]
+            if not (d["flags"] & 4) or any(w in d["expr"] for w in ("io.", "os.", "file", "lines")):
+                picks += [inner_defs[1], inner_defs[8], inner_defs[10], inner_defs[0]]
+            combos = [(ifl, idef, INNER_FORMS[(h + k) % 4], 1 + (h + k) % 4) for k, (ifl, idef) in enumerate(picks)]
+        else:
+            outers = [4, 5, 12]
+            combos = [(ifl, idef, fm, ti) for (ifl, idef) in inner_defs for fm in INNER_FORMS for ti in (0, 1, 2, 3, 4)]
+        for outer in outers:
+            for ifl, idef, fm, ti in combos:
+                R = outer | ifl
+                blocked = (R & ~d["flags"]) != 0
+                if not blocked and d["go"] in DANGEROUS:
+                    continue
+                nested[len(cases)] = (outer, idef)
+                cases.append((d, R, fm, ti, blocked))
+    ck.cov["nested_context_cases"] = len(nested)
+    # stress: many rejected calls in one thread must not wear anything out (Go call depth, pools, memory accounting)
+    stress_cases = []
+    nrej = 1600 if quick else 6000
+    for d in dyn:
+        if d["go"] in DANGEROUS or "(" in d["expr"] or d["flags"] == 15:
+            continue
+        missing_bit = next(b for b, _ in FLAG_NAMES if not d["flags"] & b)
+        for thread in ("main", "coroutine", "pcall"):
+            stress_cases.append((d, missing_bit | 4, thread, nrej))
+    if quick:
+        stress_cases = [c for k, c in enumerate(stress_cases) if k % 3 == (k // 3 + rot) % 3][:12]
+    ck.cov["stress_cases"] = len(stress_cases)
     # the Go API path (RuntimeContextDef.RequiredFlags through Thread.CallContext) for functions reachable by plain indexing
     api_cases = []
     for d in dyn:
@@ -253,10 +326,15 @@ def run(tier, seed):
             api_cases.append((d, R, blocked))
     lines = []
     for i, (d, R, fm, ti, blocked) in enumerate(cases):
-        lines.append("c%d %s" % (i, chunk(d["expr"], TUPLES[ti], R, fm).encode().hex()))
+        if i in nested:
+            lines.append("n%d %s" % (i, chunk_nested(d["expr"], TUPLES[ti], nested[i][0], nested[i][1], fm).encode().hex()))
+        else:
+            lines.append("c%d %s" % (i, chunk(d["expr"], TUPLES[ti], R, fm).encode().hex()))
     for i, (d, R, blocked) in enumerate(api_cases):
         src = "return %s('canary')" % d["expr"]
         lines.append("a%d %s flags=%d" % (i, src.encode().hex(), R))
+    for i, (d, R, thread, cnt) in enumerate(stress_cases):
+        lines.append("s%d %s" % (i, chunk_stress(d["expr"], R, thread, cnt).encode().hex()))
     ck.log("cases: %d via runtime.callcontext, %d via the Go API" % (len(cases), len(api_cases)))
     # the harness process keeps every runtime it created alive (coroutine goroutines), so feed it in slices;
     # slices run in parallel, each in its own sentinel directory
@@ -302,13 +380,37 @@ def run(tier, seed):
             return
         nviol += 1
         cls = (d["go"], re.sub(r"[^a-z ]", "", summary.split(d["expr"])[0])[:40])
-        if cls not in reported and len(reported) < 12:
+        if summary.startswith("inside runtime.callcontext") or summary.startswith("after a nested context"):
+            # one report per inner definition, not per function
+            cls = ("nested-flags", rep.get("nested", {}).get("inner_def"))
+            if sum(1 for c in reported if c[0] == "nested-flags") >= 3 and cls not in reported:
+                return
+        if cls not in reported and len(reported) < 16:
             reported.add(cls)
             ck.violation(summary, rep)
 
     for i, l in enumerate(outs):
         if i >= len(lines):
             break
+        if i >= len(cases) + len(api_cases):
+            d, R, thread, cnt = stress_cases[i - len(cases) - len(api_cases)]
+            src = bytes.fromhex(lines[i].split(" ")[1]).decode()
+            ck.case("stress|%s|%d|%s|%d" % (d["expr"], R, thread, cnt), nontrivial=True)
+            ck.count("form:stress-" + thread)
+            f = l.split(" ")
+            fields = {x[0]: x[2:] for x in f[2:] if len(x) > 1 and x[1] == ":"}
+            evs = parse_trace(fields.get("T", "-")) if len(f) > 2 and f[1] == "ok" else []
+            want = [["rej", "i%d" % cnt], ["after", True, "aaa"], ["after2", "12", "i2", "X"], ["ctx", "done", "fin"],
+                    ["outside", True, "bb"], ["outside2", "7", "i3"]]
+            if evs != want:
+                bad = next((k for k in range(len(want)) if k >= len(evs) or evs[k] != want[k]), len(want))
+                report("after %d flag-rejected calls of %s in one %s the context does not keep running: expected event %s, got %s (status %s)" %
+                       (cnt, d["expr"], {"main": "thread", "coroutine": "coroutine", "pcall": "protected call"}[thread], want[bad] if bad < len(want) else "-",
+                        evs[bad] if bad < len(evs) else (bytes.fromhex(fields["E"]).decode("utf-8", "replace")[:120] if fields.get("E", "-") != "-" else None), f[1] if len(f) > 1 else "?"),
+                       {"kind": "Go!=S", "engine": "flags", "function": d["expr"], "go_function": d["go"], "required": R, "required_names": names(R),
+                        "form": "stress-" + thread, "lua": src, "impl": l[:1500], "expected_events": want, "got_events": evs,
+                        "theorem": "C08_blocked_call_is_invisible / C08_gate_blocks (state unchanged, incl. the Go call depth)"}, d)
+            continue
         is_api = i >= len(cases)
         if is_api:
             d, R, blocked = api_cases[i - len(cases)]
@@ -353,6 +455,18 @@ def run(tier, seed):
             admitted_seen += (not blocked)
         else:
             evs = parse_trace(fields.get("T", "-"))
+            if i in nested:
+                ck.count("nested:outer=%s" % names(nested[i][0]).replace(" ", "+"))
+                fl_ev = next((e for e in evs if e and e[0] == "flags"), None)
+                ofl_ev = next((e for e in evs if e and e[0] == "outerflags"), None)
+                rep["nested"] = {"outer": names(nested[i][0]), "inner_def": nested[i][1], "required_inside": names(R)}
+                if status == "ok" and fl_ev is not None and fl_ev[1:] != [names(R)]:
+                    report("inside runtime.callcontext(%s) nested in a context requiring '%s' the flags in force are '%s', expected '%s' (%s)" %
+                           (nested[i][1], names(nested[i][0]), fl_ev[1] if len(fl_ev) > 1 else None, names(R), d["expr"]),
+                           dict(rep, theorem="C08_gate_monotone_under_nesting"), d)
+                elif status == "ok" and ofl_ev is not None and ofl_ev[1:] != [names(nested[i][0])]:
+                    report("after a nested context the outer context requires '%s' instead of '%s' (%s)" %
+                           (ofl_ev[1] if len(ofl_ev) > 1 else None, names(nested[i][0]), d["expr"]), dict(rep, theorem="C08_gate_monotone_under_nesting"), d)
             r_ev = next((e for e in evs if e and e[0] == "r"), None)
             alive = any(e[:2] == ["alive", "integer"] for e in evs)
             ctx_ev = next((e for e in evs if e and e[0] == "ctx"), None)
